@@ -726,6 +726,8 @@ def execute(spec):
             # the Gonze-Lee reciprocal-space kernels against the harness's numpy model, at this run's q-points and direction
             E.use("serial")
             dm = ph.dynamical_matrix
+            if getattr(dm, "_dd_q0", None) is None:  # the driver's q-points were all at Gamma without direction: dataset not built yet
+                dm.make_Gonze_nac_dataset()
             rec = np.linalg.inv(np.array(dm._pcell.cell))  # columns: reciprocal basis
             worst, scale_ = 0.0, 1e-300
             qd = a["nac_q_direction"]
